@@ -115,6 +115,22 @@ def s1(prog: Program, chk: Check) -> None:
                         ctx = [br for (t, br) in branch_context(owner.node, st)
                                if dotted(t) == "self._unique"]
                         defs.append((st.value, ctx))
+                if defs:
+                    # `x = None` followed by `if self._unique: x = [...]` (no else) selects
+                    # like if / else does: the default counts as the other branch
+                    body = list(owner.node.body)
+                    for k_, (v_, ctx_) in enumerate(defs):
+                        if ctx_ == [] and isinstance(v_, ast.Constant) and v_.value is None:
+                            at = next((i for i, b in enumerate(body) if isinstance(b, ast.Assign)
+                                       and b.value is v_), None)
+                            later = [i for i, b in enumerate(body) if isinstance(b, ast.If)
+                                     and dotted(b.test) == "self._unique" and not b.orelse
+                                     and any(isinstance(y, ast.Assign) and dotted(y.targets[0]) == dp.id
+                                             for y in b.body)]
+                            if at is not None and later and at < later[0] and not any(
+                                    isinstance(y, ast.Assign) and dotted(y.targets[0]) == dp.id
+                                    for b in body[at + 1:later[0]] for y in ast.walk(b)):
+                                defs[k_] = (v_, [False])
                 owner = owner.parent
             # a selector method that returns the pair: look at what it returns
             expanded = []
@@ -246,6 +262,9 @@ def s2(prog: Program, chk: Check) -> None:
                 if fn == "_get_caps":
                     found.setdefault("_get_caps", set()).add(repr(t.form(c.args[1], nid)))
                 if kind == "controls" and c.args:
+                    found.setdefault("controls", set()).add(repr(t.form(c.args[0], nid)))
+                if isinstance(c.func, ast.Attribute) and c.func.attr == "get_controls" and c.args:
+                    # the control object asked directly instead of through a closure
                     found.setdefault("controls", set()).add(repr(t.form(c.args[0], nid)))
         need = {"propagators", "_get_pt_mpos", "_get_caps", "controls"}
         ok = need <= set(found) and all(v == {repr(STEP)} for v in found.values())
@@ -404,6 +423,22 @@ def numeric_option_tests(prog: Program):
                                 and isinstance(x.orelse.value, (int, float)) \
                                 and not isinstance(x.orelse.value, bool) and x.orelse.value == 0:
                             b = x.body
+                            while isinstance(b, ast.Call) and isinstance(b.func, ast.Name) \
+                                    and b.func.id in ("int", "float", "complex") and len(b.args) == 1:
+                                b = b.args[0]
+                            if isinstance(b, ast.Name) and b.id == y.id:
+                                continue
+                        # the same as an if statement:  if p: x = conv(p)  else: x = 0
+                        if isinstance(x, ast.If) and x.test is y and len(x.body) == 1 \
+                                and len(x.orelse) == 1 and isinstance(x.body[0], ast.Assign) \
+                                and isinstance(x.orelse[0], ast.Assign) \
+                                and [norm(t_) for t_ in x.body[0].targets] == \
+                                [norm(t_) for t_ in x.orelse[0].targets] \
+                                and isinstance(x.orelse[0].value, ast.Constant) \
+                                and isinstance(x.orelse[0].value.value, (int, float)) \
+                                and not isinstance(x.orelse[0].value.value, bool) \
+                                and x.orelse[0].value.value == 0:
+                            b = x.body[0].value
                             while isinstance(b, ast.Call) and isinstance(b.func, ast.Name) \
                                     and b.func.id in ("int", "float", "complex") and len(b.args) == 1:
                                 b = b.args[0]
